@@ -227,10 +227,22 @@ func (t *Tester) runDescribedTests(
 		return cases, errors.WithStack(err)
 	}
 
+	// Subroutine inside describe statement may have the same name as a top-level one, keep it to put back afterwards
+	shadowed := make(map[string]*ast.SubroutineDeclaration)
+	for _, sub := range d.Subroutines {
+		if prev, ok := defs.Subroutines[sub.Name.Value]; ok {
+			shadowed[sub.Name.Value] = prev
+		}
+	}
+
 	defer func() {
 		// Remove all stored subroutines
 		for _, sub := range d.Subroutines {
-			delete(defs.Subroutines, sub.Name.Value)
+			if prev, ok := shadowed[sub.Name.Value]; ok {
+				defs.Subroutines[sub.Name.Value] = prev
+			} else {
+				delete(defs.Subroutines, sub.Name.Value)
+			}
 		}
 	}()
 
